@@ -32,4 +32,4 @@ json.dump({'property':'$p','cases':sum(1 for _ in open('$COV/$p.lines')),'files'
 print('$p', 'cases', sum(1 for _ in open('$COV/$p.lines')), 'lines covered in /repo: %d/%d' % (cov,tot))
 "
 done
-rm -rf $COV/prof
+rm -rf $COV/prof; rm -f /repo/*.profraw /verif/*.profraw /verif/harness/*.profraw
